@@ -532,30 +532,34 @@ def _main(args=None):
         except (KeyboardInterrupt, SystemExit):
             pass
     finally:
-        if options.output_interval:
-            rt.stop()
-        prof.dump_stats(options.outfile)
-        print('Wrote profile results to %s' % options.outfile)
-        if options.view:
-            if isinstance(prof, ContextualProfile):
-                prof.print_stats()
+        try:
+            if options.output_interval:
+                rt.stop()
+            prof.dump_stats(options.outfile)
+            print('Wrote profile results to %s' % options.outfile)
+            if options.view:
+                if isinstance(prof, ContextualProfile):
+                    prof.print_stats()
+                else:
+                    prof.print_stats(output_unit=options.unit,
+                                     stripzeros=options.skip_zero,
+                                     rich=options.rich,
+                                     stream=original_stdout)
             else:
-                prof.print_stats(output_unit=options.unit,
-                                 stripzeros=options.skip_zero,
-                                 rich=options.rich,
-                                 stream=original_stdout)
-        else:
-            print('Inspect results with:')
-            py_exe = _python_command()
-            if isinstance(prof, ContextualProfile):
-                print(f'{py_exe} -m pstats "{options.outfile}"')
-            else:
-                print(f'{py_exe} -m line_profiler -rmt "{options.outfile}"')
-        # Restore the state of the global `@line_profiler.profile`
-        if global_profiler:
-            install_profiler(None)
-            (global_profiler._profile,
-             global_profiler.enabled) = global_profiler_state
+                print('Inspect results with:')
+                py_exe = _python_command()
+                if isinstance(prof, ContextualProfile):
+                    print(f'{py_exe} -m pstats "{options.outfile}"')
+                else:
+                    print(f'{py_exe} -m line_profiler -rmt "{options.outfile}"')
+        finally:
+            # Restore the state of the global `@line_profiler.profile`,
+            # also when the results could not be written (e.g. an
+            # output file in a directory that does not exist)
+            if global_profiler:
+                install_profiler(None)
+                (global_profiler._profile,
+                 global_profiler.enabled) = global_profiler_state
 
 
 if __name__ == '__main__':
